@@ -101,8 +101,19 @@ def gen_array(rng, ty, nullable, n):
     return out
 
 
+def gen_skip_read(rng, n):
+    """several skips in a row (the second and later ones run on the `fake` iterator), then reads"""
+    ops = []
+    for _ in range(rng.randint(2, 4)):
+        ops.append(["s", rng.choice([1, 2, 3, 5, 8, 11, 12, 13, rng.randint(0, max(1, n // 3))])])
+        if rng.random() < 0.3:
+            ops.append(["h"])
+    ops += [["n", rng.choice([None, None, 3, 1000])]] * rng.randint(1, 4)
+    return {"start": rng.choice([0, 0, rng.randint(0, max(0, n // 4))]), "ops": ops}
+
+
 def gen_reads(rng, n):
-    reads = []
+    reads = [gen_skip_read(rng, n)] if rng.random() < 0.6 else []
     for _ in range(rng.randint(2, 4)):
         start = rng.choice([0, 0, rng.randint(0, n), n, max(0, n - 1)])
         ops = []
@@ -133,6 +144,11 @@ def gen_case(rng, tier):
     cuts = sorted(rng.randint(0, n) for _ in range(k - 1))
     vals = gen_array(rng, ty, nullable, n)
     arrays = [vals[a:b] for a, b in zip([0] + cuts, cuts + [n])]
+    if nullable and len(arrays) > 1 and rng.random() < 0.4:
+        # a NULL-free first append followed by appends with NULLs (the builder outlives an append)
+        arrays[0] = [v if v is not None else gen_value(rng, ty, "small") for v in arrays[0]]
+        if arrays[1]:
+            arrays[1][rng.randrange(len(arrays[1]))] = None
     return {"ty": ty, "nullable": nullable, "encode": encode, "block": block, "crc": rng.random() < 0.6,
             "arrays": arrays, "reads": gen_reads(rng, n)}
 
@@ -255,6 +271,28 @@ def run(R, only_cases=None):
         R.correspondence_broken("C06 " + "; ".join(names[s] for s in subs),
                                 json.dumps({"case": c, "observed_index": o["index"]})[:3000])
         break
+    if failing and not R.prop_failures and only_cases is None:
+        # search: the model and the code disagree; look for an input of the same families on which
+        # the property itself fails on the implementation (oracle only, no Coq needed)
+        fams = {(usable[i][0]["ty"], usable[i][0]["nullable"], usable[i][0]["encode"]) for i in failing}
+        extra = []
+        for _ in range(6000):
+            c = gen_case(R.rng, R.tier)
+            ty, nu, en = R.rng.choice(sorted(fams))
+            if c["ty"] != ty:
+                continue
+            c["nullable"], c["encode"] = nu, en
+            if not nu:
+                continue_ok = all(v is not None for arr in c["arrays"] for v in arr)
+                if not continue_ok:
+                    c["arrays"] = [[v if v is not None else gen_value(R.rng, ty, "small") for v in arr] for arr in c["arrays"]]
+            extra.append(c)
+        extra = extra[:1500]
+        for c, o in zip(extra, run_harness("c06", extra, jobs=16)):
+            why = oracle(c, o)
+            if why is not None:
+                R.property_fails(classify(c), "C06 " + why, {"kind": "column-read", "case": c, "observed": o})
+        R.coverage["search_cases"] = len(extra)
     dist = {}
     for c in cases:
         key = f"{c['ty']}/{'null' if c['nullable'] else 'nn'}/{['plain', 'rle', 'dict'][c['encode']]}"
